@@ -557,9 +557,16 @@ class WatchdogTimeout(Exception):
 
 
 class cpu_time_limit:
-    """Raises `exc` inside the running (pure-Python, main-thread) call when it has used `seconds` of CPU time
-    (ITIMER_VIRTUAL: a call that spins is caught however loaded the machine is, and a descheduled process is not
-    mistaken for a hang), with a wall-clock backstop of seconds*wall_factor for calls that block without computing."""
+    """Raises `exc` inside the running pure-Python call when the PROCESS has used `seconds` of CPU time since entry
+    (a call that spins is caught however loaded the machine is, and a descheduled process is not mistaken for a hang),
+    with a wall-clock backstop of seconds*wall_factor for calls that block without computing.
+
+    Implemented with a watchdog thread rather than an interval timer: a process-directed timer signal may be delivered
+    to a thread other than the main one, and the main thread blocked in a lock (waiting for a job it submitted to a
+    thread-pool evaluator) then never runs the handler.  On expiry the watchdog (a) raises `exc` asynchronously in
+    every other Python thread - the call may be spinning in a pool thread, which nothing else can stop - and (b)
+    interrupts the thread that entered the limit (thread-directed SIGUSR2 when it is the main thread), and repeats
+    every 0.25 s until the limit is left, so an exception swallowed by a broad `except` is raised again.  Limits nest."""
 
     def __init__(self, seconds, exc=WatchdogTimeout, wall_factor=30):
         self.seconds, self.exc, self.wall = float(seconds), exc, float(seconds) * wall_factor
@@ -567,21 +574,77 @@ class cpu_time_limit:
     def _raise(self, signum, frame):
         raise self.exc()
 
+    def _fire(self):
+        import ctypes
+        import signal
+        import threading
+        me = threading.get_ident()
+        for t in threading.enumerate():
+            if t.ident is not None and t.ident not in (me, self.caller) and not getattr(t, "_verif_watchdog", False):
+                ctypes.pythonapi.PyThreadState_SetAsyncExc(ctypes.c_ulong(t.ident), ctypes.py_object(self.exc))
+        if self.is_main:
+            signal.pthread_kill(self.caller, signal.SIGUSR2)
+        else:
+            ctypes.pythonapi.PyThreadState_SetAsyncExc(ctypes.c_ulong(self.caller), ctypes.py_object(self.exc))
+
     def __enter__(self):
         import signal
-        self.old_v = signal.signal(signal.SIGVTALRM, self._raise)
-        self.old_r = signal.signal(signal.SIGALRM, self._raise)
-        signal.setitimer(signal.ITIMER_VIRTUAL, self.seconds)
-        signal.setitimer(signal.ITIMER_REAL, self.wall)
+        import threading
+        import time
+        self.caller = threading.get_ident()
+        self.is_main = threading.current_thread() is threading.main_thread()
+        if self.is_main:
+            self.old = signal.signal(signal.SIGUSR2, self._raise)
+        self.cpu0, self.t0 = time.process_time(), time.monotonic()
+        self.last_fire = 0.0
+        _watchdog_register(self)
         return self
 
     def __exit__(self, *a):
         import signal
-        signal.setitimer(signal.ITIMER_VIRTUAL, 0)
-        signal.setitimer(signal.ITIMER_REAL, 0)
-        signal.signal(signal.SIGVTALRM, self.old_v)
-        signal.signal(signal.SIGALRM, self.old_r)
+        _watchdog_unregister(self)
+        if self.is_main:
+            try:
+                signal.signal(signal.SIGUSR2, self.old)
+            except BaseException:
+                pass
         return False
+
+
+# one shared daemon thread polls all active limits (a thread per limit made 70 000 guarded calls cost a minute)
+_WD = {"thread": None, "active": [], "pid": None}
+
+
+def _watchdog_loop():
+    import time
+    while True:
+        time.sleep(0.05)
+        now_cpu, now = time.process_time(), time.monotonic()
+        for lim in list(_WD["active"]):
+            if (now_cpu - lim.cpu0 > lim.seconds or now - lim.t0 > lim.wall) and now - lim.last_fire >= 0.25:
+                lim.last_fire = now
+                try:
+                    lim._fire()
+                except Exception:
+                    pass
+
+
+def _watchdog_register(lim):
+    import threading
+    if _WD["thread"] is None or _WD["pid"] != os.getpid() or not _WD["thread"].is_alive():
+        _WD["active"] = []                       # (after a fork the parent's thread does not exist in the child)
+        t = threading.Thread(target=_watchdog_loop, daemon=True)
+        t._verif_watchdog = True
+        _WD["thread"], _WD["pid"] = t, os.getpid()
+        t.start()
+    _WD["active"].append(lim)
+
+
+def _watchdog_unregister(lim):
+    try:
+        _WD["active"].remove(lim)
+    except ValueError:
+        pass
 
 
 def child_process_guard(cpu_seconds=3600):
@@ -593,6 +656,12 @@ def child_process_guard(cpu_seconds=3600):
         import ctypes
         import signal
         ctypes.CDLL("libc.so.6", use_errno=True).prctl(1, signal.SIGKILL)   # PR_SET_PDEATHSIG
+    except Exception:
+        pass
+    try:
+        import faulthandler
+        import signal as _s
+        faulthandler.register(_s.SIGUSR1, all_threads=True)   # kill -USR1 <pid> prints where a stuck helper is
     except Exception:
         pass
     try:
